@@ -97,6 +97,10 @@ def case(spec) -> tuple:
     except Exception as e:
         return ('finding', f'{rw.exc_signature(e)}@{text}', f'split_and({text}) raised {type(e).__name__}: {short(e, 120)}', rep)
     rep['output'] = [str(p) for p in parts]
+    if not composed and len(text) % 4 == 0:
+        h = rw.history_dependence(split_and, rw.rebuild(cond, fresh_metadata=True), holds=lambda d, o: eq.equivalent(d, list(o), K=K, conj=True).verdict != 'sat')
+        if h:
+            return ('finding', f'history@{text}', f'split_and depends on earlier calls: {h}', rep)
     if not isinstance(parts, list):
         return ('finding', f'not-a-list@{text}', f'split_and({text}) returned {type(parts).__name__}', rep)
     for p in parts:
